@@ -61,11 +61,11 @@ pub fn run_insert_only(prop: &'static str, checks: Checks, tier: Tier) -> i32 {
     let mut runs = Vec::new();
     // (pairs level, #cfgs, depth, max_dev)
     let plans: Vec<(u8, u32, usize, usize)> = match (tier, checks.c17) {
-        (Tier::Quick, false) => vec![(2, 4, 1, 2), (1, 4, 2, 1)],
-        (Tier::Thorough, false) => vec![(2, 16, 1, 3), (1, 16, 2, 2), (2, 16, 2, 1), (1, 4, 3, 1)],
+        (Tier::Quick, false) => vec![(2, 2, 1, 2), (1, 4, 2, 1)],
+        (Tier::Thorough, false) => vec![(2, 16, 1, 2), (1, 16, 2, 2), (1, 2, 3, 1)],
         // tracing and serialising a trace is ~30x the cost of a match: smaller plans
         (Tier::Quick, true) => vec![(1, 2, 1, 2), (1, 2, 2, 1)],
-        (Tier::Thorough, true) => vec![(2, 16, 1, 2), (1, 16, 2, 1), (1, 4, 2, 2)],
+        (Tier::Thorough, true) => vec![(2, 4, 1, 2), (1, 16, 2, 1), (1, 2, 2, 2)],
     };
     // pairs level 9 = the host-focus universe (all insertion orders of its small subsets)
     let mut plans = plans;
